@@ -39,6 +39,13 @@ type lruTrace struct {
 	Model []lruStep `json:"model"`
 }
 
+// swapReader: a reader OBJECT whose content can be replaced underneath (what an io.ReadSeeker handed to Reset a
+// second time may well be: a re-opened file behind the same wrapper)
+type swapReader struct{ r *bytes.Reader }
+
+func (s *swapReader) Read(p []byte) (int, error)                { return s.r.Read(p) }
+func (s *swapReader) Seek(off int64, whence int) (int64, error) { return s.r.Seek(off, whence) }
+
 func cmdC12Lru(args []string) error {
 	fs := flag.NewFlagSet("c12-lru", flag.ExitOnError)
 	edges := fs.String("edges", "", "TLC output containing EDGE lines")
@@ -79,7 +86,8 @@ func cmdC12Lru(args []string) error {
 		if err != nil {
 			return err
 		}
-		if err := lf.Reset(bytes.NewReader(content)); err != nil {
+		rsObj := &swapReader{r: bytes.NewReader(content)}
+		if err := lf.Reset(rsObj); err != nil {
 			return err
 		}
 		tr := lruTrace{CS: *cs, NE: *ne, File: ints(content), Model: e.Hist, Steps: []lruStep{}}
@@ -90,7 +98,22 @@ func cmdC12Lru(args []string) error {
 		}
 		for _, st := range e.Hist {
 			rs := lruStep{Op: st.Op, A: st.A, Bytes: []int{}}
-			if st.Op == "read" {
+			if st.Op == "reset" {
+				// the cache is handed another file of the same length: through the very same reader object whose
+				// content changed underneath (a == 0), or through a new one
+				nc := make([]byte, len(st.Bytes))
+				for i, v := range st.Bytes {
+					nc[i] = byte(v)
+				}
+				if st.A == 0 {
+					rsObj.r = bytes.NewReader(nc)
+				} else {
+					rsObj = &swapReader{r: bytes.NewReader(nc)}
+				}
+				err := lf.Reset(rsObj)
+				rs.Bytes = ints(nc)
+				rs.EOF = err != nil
+			} else if st.Op == "read" {
 				buf := make([]byte, st.A)
 				n, err := lf.Read(buf)
 				rs.Bytes = ints(buf[:n])
